@@ -103,7 +103,10 @@ def _worker(conn, engine_modname, tier, verif_seed):
 def _load_engine(modname):
     import importlib
 
-    return importlib.import_module(modname)
+    mod = importlib.import_module(modname)
+    if hasattr(mod, "preload"):
+        mod.preload()  # import the library in the parent so that forked children start warm
+    return mod
 
 
 class Farm:
